@@ -8,7 +8,13 @@
 2. TLC exports every history of 4 (thorough: 5) events and simulated 14-event ones; the
    harness replays them into the real counter and into Limiter.Account (injected clock,
    several clock bases including one that wraps int64, events repeated to force the real
-   8 -> 16 -> 32 resizes), plus seeded random long histories (bursts, gaps > window).
+   8 -> 16 -> 32 resizes), at 100 ms per step and at 300 us per step (events inside one
+   millisecond with the window edge between them), plus seeded random long histories
+   (bursts, gaps > window) at millisecond and microsecond resolution.
+2b. QuotaFirst.tla models simultaneous first events of one uncached address block; TLC
+   checks the group bound with the lock, finds it broken without, and exports every gate
+   interleaving; the harness forces them on the real Quota through the quota.miss gate
+   point and adds free-running simultaneous bursts on fresh blocks.
 3. Bucket.tla pairs boundary addresses (bit flipped around /24 and /64, mapped, zoned),
    proves byte-masking == bit-prefix bucketing, exports the pairs; the harness records
    ipKey equality for them and runs Quota.Blocked in real time over several buckets.
@@ -30,8 +36,9 @@ META = {
     "design_ref": "DESIGN.md section 4, C34",
     "level_note": "Timestamps are nondecreasing (the quantifier's histories). An event exactly one window old may count "
                   "or not. A Limiter history ends at the first refusal (the connection is closed there). The quota bound "
-                  "is an upper bound in real time (elapsed measured around the calls, half an event slack) plus 'a "
-                  "bucket's first event is allowed'; no lower bound on throughput is required. Non-IP strings are "
+                  "is an upper bound in real time (elapsed = latest end - earliest start of the bucket's calls, half an "
+                  "event slack) plus, in sequential runs, 'a bucket's first event is allowed'; no lower bound on "
+                  "throughput is required. Gate schedules the real lock forbids just run as the lock lets them. Non-IP strings are "
                   "unconstrained. LRU eviction of quota buckets is not exercised.",
     "technique": "TLA+ refinement check (ring buffer vs abstract window) with TLC, TLC-exported histories replayed on "
                  "real code with an injected clock, TLC trace validation",
@@ -59,20 +66,32 @@ def run(ctx):
             % (n_ex, ctx.pick(4, 5), len(sim), len(hs)))
     with open(ctx.path("hist.json"), "w") as fh:
         json.dump(hs, fh)
+    rq = ctx.tlc("QuotaFirst")
+    ru = ctx.tlc("QuotaFirst", "QuotaFirst_unlocked.cfg", allow_violation=True, count=False)
+    if ru.violated != "GroupBound":
+        raise vlib.ToolError("quota model without the lock does not exceed the burst: vacuous")
+    qs = ctx.tlc("QuotaFirst", "QuotaFirst_sched.cfg", workers=1, count=False).printed_json("SCHED")
+    with open(ctx.path("qsched.json"), "w") as fh:
+        json.dump(qs, fh)
+    ctx.log("QuotaFirst.tla: %d states hold the group bound; %d gate schedules of simultaneous first events"
+            % (rq.distinct, len(qs)))
     rp = ctx.tlc("Bucket", workers=1)
     pairs = rp.printed_json("PAIR")
+    if ctx.quick:
+        pairs = pairs[::3]
     with open(ctx.path("pairs.json"), "w") as fh:
         json.dump(pairs, fh)
     ctx.log("Bucket.tla: %d address pairs (%d same bucket)" % (len(pairs), sum(1 for p in pairs if p["same"])))
 
     ctx.harness("./c34", "TestTrace", env={"VERIF_RANDOM": ctx.pick(40, 600),
-                                           "VERIF_QUOTA_MS": ctx.pick(900, 4000)}, timeout=1200)
+                                           "VERIF_QUOTA_MS": ctx.pick(400, 4000),
+                                           "VERIF_QUOTA_ROUNDS": ctx.pick(40, 2000)}, timeout=1200)
     st = json.load(open(ctx.path("stats.json")))
     ctx.log("harness: %d counter runs (%d adds, max capacity %d), %d limiter runs (%d closed), %d quota calls "
             "(%d blocked), %d key pairs" % (st["counter_runs"], st["adds"], st["max_ring_capacity"], st["limiter_runs"],
                                             st["limiter_runs_closed"], st["quota_calls"], st["quota_blocked"],
                                             st["key_pairs"]))
-    if st["max_ring_capacity"] < 32 or not st["limiter_runs_closed"] or not st["quota_blocked"] \
+    if not st["sub_millisecond_runs"] or not st["quota_schedules_forced"] or st["max_ring_capacity"] < 32 or not st["limiter_runs_closed"] or not st["quota_blocked"] \
             or st["limiter_runs_closed"] == st["limiter_runs"]:
         raise vlib.ToolError("harness did not reach resizes / refusals: %s" % st)
     recs = vlib.read_ndjson(ctx.path("trace.ndjson"))
@@ -84,15 +103,16 @@ def run(ctx):
         head = run[0] if run and run[0].get("ev") == "reset" else {}
         if ev == "add":
             key = "counter:sum-mismatch"
-            desc = "counter sum %s after adding n=%s at t=%s (window %s ms) is not the sliding-window sum" % (
-                bad.get("sum"), bad.get("n"), bad.get("t"), head.get("w"))
+            desc = "counter sum %s after adding n=%s at t=%s (window %s, %s units per second) is not the sliding-window sum" % (
+                bad.get("sum"), bad.get("n"), bad.get("t"), head.get("w"), head.get("ups"))
         elif ev == "acct":
             key = "limiter:%s" % ("refused-within-limit" if not bad.get("ok") else "allowed-over-limit")
-            desc = "Limiter(pps=%s,bps=%s,window=%sms).Account at t=%s returned %s against the sliding-window count" % (
-                head.get("pps"), head.get("bps"), head.get("w"), bad.get("t"), bad.get("ok"))
+            desc = "Limiter(pps=%s,bps=%s,window=%s at %s units/s).Account at t=%s returned %s against the sliding-window count" % (
+                head.get("pps"), head.get("bps"), head.get("w"), head.get("ups"), bad.get("t"), bad.get("ok"))
         elif ev == "q":
             zoned = "%" in bad.get("s", "")
-            key = "quota:%s:%s" % ("zoned-address" if zoned else "address",
+            key = "quota:%s:%s" % ("zoned-address" if zoned else
+                                   "simultaneous-first-events" if head.get("conc") else "address",
                                    "blocked-first-event" if bad.get("blocked") else "over-bound")
             desc = "Quota(eps_milli=%s,burst=%s): event for %s at %s ms was %s" % (
                 head.get("eps_milli"), head.get("burst"), bad.get("s"), bad.get("t1"),
@@ -118,6 +138,8 @@ def run(ctx):
         "limiter_runs": st["limiter_runs"],
         "limiter_runs_closed": st["limiter_runs_closed"],
         "max_ring_capacity": st["max_ring_capacity"],
+        "sub_millisecond_runs": st["sub_millisecond_runs"],
+        "quota_schedules_forced": st["quota_schedules_forced"],
         "quota_calls": st["quota_calls"],
         "quota_blocked": st["quota_blocked"],
         "key_pairs": st["key_pairs"],
